@@ -90,10 +90,15 @@ def _calls(quick, thorough):
 
 
 def _libcalls(quick, thorough):
-    return [dict(id="lib%d" % quick, defines={"LIBCALLS": quick}, unwind=quick + 1,
-                 tier="quick"),
-            dict(id="lib%d" % thorough, defines={"LIBCALLS": thorough},
-                 unwind=thorough + 1, tier="thorough",
+    # the adapter's own loop runs at most LIBCALLS+1 times (the library stub
+    # stops after LIBCALLS calls); any OTHER loop a change may add around the
+    # library call (error tables etc.) gets a generous bound, so that it cannot
+    # cut the paths to the named obligations short
+    def case(n, tier, **kw):
+        return dict(id="lib%d" % n, defines={"LIBCALLS": n}, unwind=24,
+                    unwindset=["process_data.0:%d" % (n + 1)], tier=tier, **kw)
+    return [case(quick, "quick"),
+            case(thorough, "thorough",
                  label="bounded(library calls per process_data <= %d)" % thorough)]
 
 
